@@ -84,6 +84,13 @@ TypedLeaves == {PStr(Sa), PNum(1), PBool(TRUE), PVar("match"), PVar("matchLength
 TypeTable == {SDbg(PBin(op, l, r)) : op \in AllBinOps, l \in TypedLeaves, r \in TypedLeaves}
                \cup {SDbg(PUn(u, l)) : u \in PrefixOps, l \in TypedLeaves}
                \cup {SRet(PBin(op, l, r)) : op \in {"+", "-", "==", "and"}, l \in TypedLeaves, r \in TypedLeaves}
+               \* an ill-typed operand on either side, also nested one level down
+               \cup {SDbg(PBin(op, l, b)) : op \in {"+", "<", "and", "==", "*"}, l \in TypedLeaves, b \in EBad}
+               \cup {SDbg(PBin(op, b, l)) : op \in {"+", "<", "and", "==", "*"}, l \in TypedLeaves, b \in EBad}
+               \cup {SRet(PBin("+", PStr(Sa), PUn(u, b))) : u \in PrefixOps, b \in EBad \cup {PNum(1)}}
+               \cup {SIf(PBin("==", PStr(Sa), b), <<SRet(PStr(Sa))>>, <<>>) : b \in EBad}
+
+
 
 (* variables keep one type: n* numbers, s* strings, b* booleans             *)
 Simple ==
@@ -101,6 +108,7 @@ Compound ==
     \cup {SLoop(<<SLoop(<<t>>), u>>) : t \in {SBrk, SCont, SRet(PNum(1))}, u \in {SBrk, SCont, SRet(PStr(Sa))}}
     \cup {SLoop(<<SIf(PBool(TRUE), <<t>>, <<u>>)>>) : t \in {SBrk, SCont}, u \in {SBrk, SRet(PBool(TRUE))}}
     \cup {SIf(PBool(TRUE), <<SLoop(<<SBrk>>), t>>, <<>>) : t \in {SBrk, SCont, SRet(PNum(1))}}
+EBadFwd == EBad
 C12_Lists(tier) ==
   {<<a>> : a \in Simple \cup Compound \cup TypeTable}
     \cup {<<SLoop(<<a, SBrk>>)>> : a \in {SRet(PVar("match")), SRet(PNum(1)), SRet(PBool(TRUE)), SRet(PBin("==", PNum(1), PNum(1)))}}
